@@ -366,6 +366,54 @@ int main()
         }
         std::cout << res << " |" << draws << std::endl;
       }
+      else if (c == "deruns")
+      {
+        // in situ, a HISTORY of differential-evolution searches in one process, each with its own control parameters:
+        // deruns <seed> <gens> <pop> <k> { <pcross> <flo> <fhi> } x k   (box [-5.12, 5.12]^3)
+        // -> per run: the distinct bounds of the real draws that are not the box (= the weight intervals F was drawn from)
+        //    and the distinct probabilities of the boolean draws:   R <flo>:<fhi> ... B <p> ... ;
+        const unsigned gens(std::stoul(next())), pop(std::stoul(next()));
+        const unsigned runs(std::stoul(next()));
+        static std::set<std::string> *rs, *bs;
+        std::string out;
+        for (unsigned r(0); r < runs; ++r)
+        {
+          const double pc(dbl(next())), flo(dbl(next())), fhi(dbl(next()));
+          de_problem prob(3, {-5.12, 5.12});
+          prob.env.individuals = pop;
+          prob.env.generations = gens;
+          prob.env.p_cross = pc;
+          prob.env.de.weight = {flo, fhi};
+          auto f = [](const std::vector<double> &x) { double s(0); for (double v : x) s -= v * v; return s; };
+          std::set<std::string> rset, bset;
+          rs = &rset;
+          bs = &bset;
+          de_search<decltype(f)> s(prob, f);
+          random::verif::draw_sink = [](char k, long double lo, long double hi, long double)
+          {
+            if (k == 'r' && !(static_cast<double>(lo) == -5.12 && static_cast<double>(hi) == 5.12))
+              rs->insert(hexd(static_cast<double>(lo)) + ":" + hexd(static_cast<double>(hi)));
+            if (k == 'b')
+              bs->insert(hexd(static_cast<double>(hi)));
+          };
+          {
+            const int saved(dup(0));
+            const int nul(open("/dev/null", O_RDONLY));
+            dup2(nul, 0);
+            s.run(1);
+            dup2(saved, 0);
+            close(nul);
+            close(saved);
+          }
+          random::verif::draw_sink = nullptr;
+          out += "R";
+          for (const auto &x : rset) out += " " + x;
+          out += " B";
+          for (const auto &x : bset) out += " " + x;
+          out += " ;";
+        }
+        std::cout << out << std::endl;
+      }
       else if (c == "garun")
       {
         // in situ: the operators as evolution_recombination.tcc / ga_search use them.
